@@ -73,6 +73,9 @@ type outcome struct {
 	O        scripted.Outcome
 	Delay    time.Duration
 	Progress bool
+	// IgnoreCancel (successes only): the transport's handshake completes after Delay even if
+	// every caller has left meanwhile
+	IgnoreCancel bool
 }
 
 type addrSpec struct {
@@ -188,6 +191,9 @@ func drawAddrs(rt *rapid.T, pi int) []*addrSpec {
 				}
 				if a.fd && rapid.IntRange(0, 4).Draw(rt, "progress") == 0 {
 					o.Progress = true
+				}
+				if o.O == scripted.Succeed && o.Delay > 0 && rapid.IntRange(0, 3).Draw(rt, "ignoreCancel") == 0 {
+					o.IgnoreCancel = true
 				}
 				a.script[r] = o
 			}
@@ -362,7 +368,7 @@ func runScenario(t *testing.T, rt *rapid.T, name string, sc *scenario) {
 		set := scripted.NewSet(w, local.ID, func(addr ma.Multiaddr, p peer.ID, n int) scripted.Script {
 			if a, ok := byDialled[string(p)+addr.String()]; ok {
 				o := a.script[round]
-				return scripted.Script{Outcome: o.O, Delay: o.Delay, Progress: o.Progress, ProgressDelay: o.Delay / 2}
+				return scripted.Script{Outcome: o.O, Delay: o.Delay, Progress: o.Progress, ProgressDelay: o.Delay / 2, IgnoreCancel: o.IgnoreCancel}
 			}
 			if strings.HasPrefix(addr.String(), "/ip4/9.") { // token-leak probe addresses
 				return scripted.Script{Outcome: scripted.Hang}
@@ -462,6 +468,28 @@ func runScenario(t *testing.T, rt *rapid.T, name string, sc *scenario) {
 			}
 			wg.Wait()
 			all = append(all, results...)
+			// handshakes that complete regardless of cancellation get the time they need
+			for _, as := range sc.addrs {
+				for _, a := range as {
+					if a.script[round].IgnoreCancel {
+						time.Sleep(21 * time.Second)
+						synctest.Wait()
+						labels["handshake-completes-despite-cancel"] = true
+						break
+					}
+				}
+			}
+			// O9: every connection a transport produced was either admitted to the swarm or closed
+			admittedLocal := map[string]bool{}
+			for _, c := range sw.Conns() {
+				admittedLocal[c.LocalMultiaddr().String()] = true
+			}
+			for _, d := range w.Snapshot() {
+				if d.Conn != nil && !d.Conn.IsClosed() && !admittedLocal[d.Conn.LAddr.String()] {
+					rt.Fatalf("round %d: the connection produced by the dial of %s (peer %s, finished at %v) is neither in the swarm nor closed although every caller has returned:\n%s",
+						round, d.Addr, d.Peer.ShortString(), d.End.Sub(t0), dumpDials(w, t0))
+				}
+			}
 			// O7: no attempt is left running once all callers returned
 			if n := w.InFlight(); n != 0 {
 				rt.Fatalf("round %d: %d transport dials still running although every caller has returned:\n%s", round, n, dumpDials(w, t0))
@@ -554,6 +582,20 @@ func dumpDials(w *scripted.World, t0 time.Time) string {
 // checkRound applies oracles O2-O6 to one round.
 func checkRound(rt *rapid.T, sc *scenario, round int, results []*callResult, w *scripted.World, t0 time.Time, labels map[string]bool, nontrivial *bool) {
 	dials := w.Snapshot()
+	rawDials := w.Snapshot() // as the transports saw them (a lingering handshake holds its tokens until it returns)
+	for i := range dials {
+		// a handshake that completed although its attempt had been cancelled is no success for
+		// anybody: the swarm has to close that connection (O9), the callers see a cancelled attempt
+		if dials[i].Err == nil && dials[i].CtxDone {
+			dials[i].Err = context.Canceled
+			if !dials[i].CancelAt.IsZero() {
+				// how it was cancelled (by the last caller leaving: Canceled; by the per-attempt dial
+				// timeout: DeadlineExceeded); the worker learns of it when the transport returns (End),
+				// the cancellation itself happened at CancelAt
+				dials[i].Err = dials[i].CancelErr
+			}
+		}
+	}
 	fail := func(format string, args ...any) {
 		rt.Fatalf("round %d: %s\ncaps perPeer=%d fd=%d\naddrs %s\ncallers %s\ndials:\n%s", round, fmt.Sprintf(format, args...), sc.perPeer, sc.fdCap,
 			describeAddrs(sc), describeCallers(results, t0), dumpDials(w, t0))
@@ -722,14 +764,18 @@ func checkRound(rt *rapid.T, sc *scenario, round int, results []*callResult, w *
 			// strictly waiting, a successful attempt on one of its candidates releases it at once
 			// with the connection, and no attempt on its candidates is cancelled.
 			for _, d := range pd {
-				if _, ok := cs[d.Addr.String()]; !ok || !d.Done || !d.End.After(cr.start) || !d.End.Before(cr.end) {
+				if _, ok := cs[d.Addr.String()]; !ok || !d.Done {
 					continue
 				}
-				if d.Err == nil {
+				if d.Err == nil && d.End.After(cr.start) && d.End.Before(cr.end) {
 					fail("caller %d kept waiting until %v although the attempt on its candidate %s succeeded at %v", ci, cr.end.Sub(t0), d.Addr, d.End.Sub(t0))
 				}
-				if errors.Is(d.Err, context.Canceled) {
-					fail("the shared attempt on %s was cancelled at %v while caller %d, which had it as a candidate, was still waiting (until %v)", d.Addr, d.End.Sub(t0), ci, cr.end.Sub(t0))
+				cancelled := d.End // the instant the attempt's context was cancelled
+				if !d.CancelAt.IsZero() {
+					cancelled = d.CancelAt
+				}
+				if errors.Is(d.Err, context.Canceled) && cancelled.After(cr.start) && cancelled.Before(cr.end) {
+					fail("the shared attempt on %s was cancelled at %v while caller %d, which had it as a candidate, was still waiting (until %v)", d.Addr, cancelled.Sub(t0), ci, cr.end.Sub(t0))
 				}
 			}
 			// a caller that gave up (own context or dial timeout) must not have been kept waiting after
@@ -793,7 +839,7 @@ func checkRound(rt *rapid.T, sc *scenario, round int, results []*callResult, w *
 					return
 				}
 				from := cr.end.Add(-2 * time.Second)
-				for _, d := range dials {
+				for _, d := range rawDials {
 					inWindow := d.Start.Before(cr.end) && (!d.Done || d.End.After(from))
 					if inWindow && (d.Peer == p || !strings.Contains(d.Addr.String(), "/udp/")) {
 						return
@@ -864,14 +910,31 @@ func checkRound(rt *rapid.T, sc *scenario, round int, results []*callResult, w *
 				// refused for back-off (left by an earlier failed dial): counts as refused, whatever other
 				// callers (force-direct ones ignore back-off) do with the address afterwards
 				if errors.Is(causes[as], swarm.ErrDialBackoff) {
+					// the k-th consecutive failure of an address backs it off for BackoffBase (k = 1) or
+					// BackoffBase + BackoffCoef*(k-1)^2; k is at most the number of failures so far. The
+					// refusal happened at or after the caller's start, so a back-off that had run out
+					// before that cannot explain it.
 					earlier := false
 					for _, d := range dials {
-						if d.Peer == p && d.Addr.String() == as && d.Done && d.Err != nil && !d.End.After(cr.end) && cr.end.Sub(d.End) <= swarm.BackoffMax {
+						if d.Peer != p || d.Addr.String() != as || !d.Done || d.Err == nil || d.End.After(cr.end) {
+							continue
+						}
+						k := 0
+						for _, e := range dials {
+							if e.Peer == p && e.Addr.String() == as && e.Done && e.Err != nil && !e.End.After(d.End) {
+								k++
+							}
+						}
+						dur := swarm.BackoffBase
+						if k > 1 {
+							dur = min(swarm.BackoffBase+swarm.BackoffCoef*time.Duration((k-1)*(k-1)), swarm.BackoffMax)
+						}
+						if d.End.Add(dur).After(cr.start) {
 							earlier = true
 						}
 					}
 					if !earlier {
-						fail("caller %d: candidate %s reported as in back-off but no earlier failed dial of it exists", ci, as)
+						fail("caller %d (started at %v): candidate %s reported as in back-off, but no failed dial of it left a back-off that was still running when the caller started", ci, cr.start.Sub(t0), as)
 					}
 					labels["backoff-skip"] = true
 					continue
